@@ -229,17 +229,6 @@ Proof. destruct d; reflexivity. Qed.
 Lemma xcur_leaf_fail fuel d m g : c_fail (xcur fuel d) (XG m g) = None.
 Proof. destruct d; reflexivity. Qed.
 
-(* the composed specification of the nesting that range_scan builds *)
-Definition level_part (lo hi : bound) (level : list file) : list (list entry) :=
-  match filter (overlaps lo hi) level with [] => [] | fs => [concat (map f_ents fs)] end.
-Definition ver_parts (lo hi : bound) (v : list (list file)) : list (list entry) :=
-  map f_ents (hd [] v) ++ flat_map (level_part lo hi) (tl v).
-Definition ver_list (lo hi : bound) (v : list (list file)) : list entry := merge_spec (ver_parts lo hi v).
-Definition top_parts (lo hi : bound) (ls : list (list entry)) (v : list (list file)) : list (list entry) :=
-  map (bounds_spec lo hi) ls ++ [ver_list lo hi v].
-Definition scan_list (lo hi : bound) (t : N) (ls : list (list entry)) (v : list (list file)) : list entry :=
-  bounds_spec lo hi (prune_spec t (merge_spec (top_parts lo hi ls v))).
-
 (* what the combinators need: sorted lists, sorted files, levels whose selected files are sorted
    end to end, and no (key, timestamp) twice among what is merged *)
 Definition scan_wf (lo hi : bound) (ls : list (list entry)) (v : list (list file)) : Prop :=
@@ -249,8 +238,18 @@ Definition scan_wf (lo hi : bound) (ls : list (list entry)) (v : list (list file
   distinct (concat (ver_parts lo hi v)) /\
   distinct (concat (top_parts lo hi ls v)).
 
-Definition total_size (ls : list (list entry)) (v : list (list file)) : nat :=
-  length (concat ls) + length (concat (map f_ents (concat v))).
+Lemma scan_wfb_ok lo hi ls v : scan_wfb lo hi ls v = true -> scan_wf lo hi ls v.
+Proof.
+  unfold scan_wfb, scan_wf. rewrite !andb_true_iff, !forallb_forall.
+  assert (forall l, sortedb l = true -> sorted l) as Hs by (intros l; apply sorted_of_bool).
+  assert (forall l, distinctb l = true -> distinct l) as Hd by (intros l; apply distinct_of_bool).
+  intros [[[[H1 H2] H3] H4] H5]. repeat split.
+  - apply Forall_forall. intros l Hl. apply Hs. now apply H1.
+  - apply Forall_forall. intros f Hf. apply Hs. now apply H2.
+  - apply Forall_forall. intros lv Hlv. apply Hs. now apply H3.
+  - now apply Hd.
+  - now apply Hd.
+Qed.
 
 Lemma len_filter_le {A} (f : A -> bool) l : len (filter f l) <= len l.
 Proof. unfold len. induction l as [|a l IH]; cbn; [lia|]. destruct (f a); cbn [length]; lia. Qed.
